@@ -1027,6 +1027,9 @@ Definition fields_ok (pf : N -> bytes) (fs : list (bytes * fval)) : bool :=
 
 Definition valid (pf : N -> bytes) (prec : precision) (p : apoint) : bool :=
   new_point_ok p && name_ok (a_name p) && tags_ok (a_tags p) && fields_ok pf (a_fields p)
+  (* NewPoint checks the size limit on the UNESCAPED field key, parsePoint on the escaped one *)
+  && forallb (fun kv => blen (make_key (a_name p) (a_tags p)) + 4 + blen (escape_string (fst kv)) <=? MaxKeyLength)
+             (a_fields p)
   && match a_time p with
      | Some t => (t mod prec_mult prec =? 0)%Z
      | None => true
